@@ -105,7 +105,7 @@ def check_frames(sx, air, lri, lrt, tag=""):
 
 def conversation(sx, tech, brs, lri, lrt, did, nad, shapes, faults,
                  rwt=8, window=40, ex_timeout=EX_TIMEOUT, release=True,
-                 foreign=None):
+                 foreign=None, rtox=False):
     """one conversation: activate both sides, n application exchanges in
     each direction under a fault script, release.
 
@@ -154,6 +154,22 @@ def conversation(sx, tech, brs, lri, lrt, did, nad, shapes, faults,
             k = T['sent']
             send = B[k] if k < n else b"\xEE"
             T['sent'] = k + 1
+            if rtox and k < n and sx.pick("rtox_before_reply_%d" % k, [0, 1]):
+                # the target application needs more time for this reply: a
+                # response timeout extension request (any value 1..59) that
+                # the initiator has to confirm before the reply follows
+                tox = sx.int("rtox%d" % k, 1, 12)    # (12 x RWT stays well inside the exchange time-out)
+                try:
+                    got = tgt.send_timeout_extension(tox)
+                except nfc.clf.CommunicationError as e:
+                    T['end'] = "rtox:" + type(e).__name__
+                    return
+                if got is None:
+                    # released / deselected while the extension was requested
+                    T['end'] = "None"
+                    return
+                T.setdefault('rtox', []).append((tox, got))
+                sx.reach("rtox-requested")
 
     air.start_target(target_stack)
     try:
@@ -248,6 +264,8 @@ def conversation(sx, tech, brs, lri, lrt, did, nad, shapes, faults,
         if x.answer is not None:
             sx.check(False, "foreign-frame-answered:%s:%s" % (x.kind, fcfg))
 
+    for tox, got in T.get('rtox', []):
+        sx.check(sx.eq(got, tox), "rtox:value-confirmed-by-initiator-differs")
     # ---- completion
     if air.foreign_frames and cls in ('clean', 'single') and ex_timeout >= EX_TIMEOUT:
         if I['end'] is not None:
@@ -265,6 +283,14 @@ def conversation(sx, tech, brs, lri, lrt, did, nad, shapes, faults,
             sx.check(False, "single-fault-not-recovered:initiator:" + why)
         if I['end'] == "TimeoutError":
             sx.reach("deadline-expired")
+    elif cls == 'single' and last.kind == "RTOX":
+        # a lost or corrupted timeout extension PDU: the initiator asks again
+        # with ATN / NAK and gets the RTOX request once more, which nfc.dep
+        # (following the NFC Forum rule for RTOX in response to ATN or NACK)
+        # treats as a protocol error - reported as such, nothing more demanded
+        sx.reach("fault-on-timeout-extension-pdu")
+        if I['end'] not in (None, "ProtocolError", "TimeoutError"):
+            sx.check(False, "fault-on-rtox-pdu:initiator-ends-with-" + str(I['end']))
     elif cls == 'single':
         if I['end'] is not None:
             sx.check(False, "single-fault-not-recovered:initiator:" + why)
@@ -356,6 +382,11 @@ def partitions(tier):
     if quick:
         conv("one:106A:0.0:f3", [[ONE + ONE]], 3)
         conv("one:212F:3.3:f3", [[M1 + M1]], 3, tech='212F')
+    # ---- the target application asks for response timeout extensions
+    # (Target.send_timeout_extension) before some of its replies
+    for tech in ('106A', '212F'):
+        conv("rtox:%s:f1" % tech, [[ONE + M1, M1 + ONE], [MM1 + ONE, ONE + MM1]], 1, tech=tech, rtox=True)
+    conv("rtox:did:f1", [[ONE + M1, M1 + ONE]], 1, did=1, rtox=True)
     # ---- conversations beyond the PNI wrap
     two = [[M1 + M1, ONE + M1], [ONE + ONE, M1 + ONE], [MM1 + ONE, ONE + MM1],
            [M + M, M + M]]
@@ -469,7 +500,7 @@ def partitions(tier):
     return parts
 
 
-MUST_REACH = ["lost-frame-then-corrupted-attention-response", "script:clean", "script:single", "script:multi", "completed:clean",
+MUST_REACH = ["rtox-requested", "lost-frame-then-corrupted-attention-response", "script:clean", "script:single", "script:multi", "completed:clean",
               "completed:single", "completed:multi", "failed:multi",
               "chaining:initiator", "chaining:target", "pni-wrap",
               "framing:106A", "framing:212F", "framing:424F", "did", "nad",
